@@ -30,6 +30,10 @@ def sh(cmd, cwd=None, env=None, timeout=3600):
 
 def main(argv):
     all_checks = "--all-checks" in argv
+    only = None           # --checks=C04,C11: restrict every run (harmless ones too) to these checks
+    for a in argv:
+        if a.startswith("--checks="):
+            only = a.split("=", 1)[1].split(",")
     names = [a for a in argv if not a.startswith("--")]
     seeded = os.path.join(VERIF, "seeded")
     if not names:
@@ -65,6 +69,8 @@ def main(argv):
                 lost.append(name)
                 continue
             checks = ALL if (harmless or all_checks) else (blind or [target])
+            if only:
+                checks = [c for c in checks if c in only] if not harmless else only
             caught = []
             for c in checks:
                 rc, out = sh([os.path.join(VERIF, "check"), c, "quick"], cwd=VERIF, env=env)
